@@ -486,7 +486,7 @@ func TestC44(t *testing.T) {
 	r := kit.Start(t, "C44", "exploration")
 	defer r.Finish()
 	r.Rule("10 VBFT message kinds with boundary-biased random fields (half of endorse/commit and all fetch kinds through the real construct*Msg builders; proposals built and signed with the calls of constructBlock): round trip + re-encoding; " +
-		"ConsensusPayload envelope signed like broadcastToAll (production shape, random fields, all header fields non-zero): round trip (both codecs), the real send path msg_pack.NewConsensus -> WriteMessage -> ReadMessage (field-wise comparison + Verify at the receiver; also NewConsensusDataReq / NewInv for consensus hashes), 12 single-field mutants and foreign keys; " +
+		"ConsensusPayload envelope signed like broadcastToAll (production shape, random fields, all header fields non-zero): round trip (both codecs), the real send path msg_pack.NewConsensus -> WriteMessage -> ReadMessage (field-wise comparison + Verify at the receiver; also NewConsensusDataReq / NewInv for consensus hashes), 12 single-field mutants and foreign keys, each mutant applied to a freshly decoded payload and also to a payload value that has already verified once (same object, struct copy, NewConsensus copy); " +
 		"block proposals: 18 single-field mutants × {block, empty block} sent through the wire form, foreign keys, transplanted signatures; distinct = (kind, builder, shape of optional parts) / (mutant name, part, outcome)")
 	r.Assume("values the encodings cannot represent by construction are excluded: Block.Info differing from the header's consensus payload, transaction roots not matching the transactions, duplicate transactions, non-UTF-8 peer ids")
 	r.Assume("ConsensusPayload.PeerId and the cached hash are local fields that are never encoded; they are not content")
@@ -783,8 +783,40 @@ func TestC44(t *testing.T) {
 			r.Count("payload_mutant_rejected", 1)
 			r.Count("payload_mutant_rejected:"+mu.name, 1)
 			r.Distinct("payload-mutant", mu.name, i%2)
+			// the same mutation applied to a payload value that has ALREADY verified once: on the
+			// object itself, on a struct copy of it, and on the copy msg_pack.NewConsensus makes
+			for _, how := range []string{"same-object", "struct-copy", "NewConsensus-copy"} {
+				v0, _ := dec(wire, true)
+				if v0.Verify() != nil {
+					break // reported above as honest-payload-rejected
+				}
+				target := v0
+				switch how {
+				case "struct-copy":
+					cp := *v0
+					target = &cp
+				case "NewConsensus-copy":
+					target = &msgpack.NewConsensus(v0).(*p2ptypes.Consensus).Cons
+				}
+				if !mu.f(target) {
+					continue
+				}
+				r.Eval(1)
+				if target.Verify() == nil {
+					r.Violation("payload-mutant-accepted-after-earlier-verify:"+how+":"+mu.name,
+						"a payload that had verified was changed ("+mu.name+", "+how+") and still verifies: the signature no longer binds the content",
+						map[string]string{"signed": kit.Hex(wire), "mutant": kit.Hex(target.ToArray())})
+					continue
+				}
+				r.Count("payload_mutant_rejected_after_earlier_verify", 1)
+				r.Count("payload_mutant_rejected_after_earlier_verify:"+how, 1)
+				r.Distinct("payload-mutant-after-verify", mu.name, how)
+			}
 		}
 	}
+	r.Require("payload_mutant_rejected_after_earlier_verify:same-object", np*5)
+	r.Require("payload_mutant_rejected_after_earlier_verify:struct-copy", np*5)
+	r.Require("payload_mutant_rejected_after_earlier_verify:NewConsensus-copy", np*5)
 	r.Require("payload_honest_verified", np/2)
 	r.Require("send_path_ok:all-fields-nonzero", np/5)
 	r.Require("send_path_ok:production-shape", np/3)
@@ -818,6 +850,19 @@ func TestC44(t *testing.T) {
 			continue
 		}
 		r.Count("proposal_honest_verified", 1)
+		{
+			// observation only (not judged): types.Header caches its hash, so a header changed in
+			// memory after it was hashed keeps the old hash until it is re-parsed
+			pm := fresh(wire)
+			if pm.Verify(sg.acct.PublicKey) == nil {
+				pm.Block.Block.Header.Timestamp++
+				if pm.Verify(sg.acct.PublicKey) == nil {
+					r.Count("observed_proposal_changed_in_memory_after_hashing_still_verifies", 1)
+				} else {
+					r.Count("observed_proposal_changed_in_memory_after_hashing_rejected", 1)
+				}
+			}
+		}
 		o := g.other(sg)
 		if fresh(wire).Verify(o.acct.PublicKey) == nil {
 			r.Violation("proposal-verifies-under-other-key", "", kit.Hex(wire))
